@@ -105,13 +105,24 @@ pub fn tmpl(mut t: T) -> Template {
                 faults.push("bounce".into());
             }
             let p_fault = if faults.is_empty() { 0 } else { 60 + rng.below(120) as u32 };
+            // drawn from a copy of the generator so that runs without bursts are exactly the runs of earlier versions
+            let rm_burst = {
+                let mut r2 = rng.clone();
+                for _ in 0..12 {
+                    r2.next();
+                }
+                (t.family.contains("orswot") || t.family.contains("map")) && !t.misuse && r2.chance(1, 4)
+            };
+            // bursts need two keys / members, and pending removes only meet through merges of states
+            let repl = if rm_burst && t.repls.contains(&Repl::Hybrid) { Repl::Hybrid } else { repl };
+            let two = t.misuse || rm_burst;
             Config {
                 family: t.family.to_string(),
                 nodes,
                 disc,
                 repl,
-                nkeys: rng.range(if t.misuse { 2 } else { 1 }, 3) as u8,
-                nmembers: rng.range(if t.misuse { 2 } else { 1 }, 3) as u8,
+                nkeys: rng.range(if two { 2 } else { 1 }, 3) as u8,
+                nmembers: rng.range(if two { 2 } else { 1 }, 3) as u8,
                 max_edits,
                 max_events: if long_typing { max_edits * 4 } else { max_edits * 7 + 12 },
                 json_wire,
@@ -129,6 +140,7 @@ pub fn tmpl(mut t: T) -> Template {
                 odd_inputs: rng.chance(1, 3),
                 bounce_every: t.bounce_every && rng.chance(1, 5),
                 redundancy_every: t.redundancy_every && rng.chance(1, 6),
+                rm_burst,
                 dup_values: (t.dups || t.family.contains("mvreg") || t.family == "lww" || t.family == "merkle") && rng.chance(1, 2),
             }
         }),
